@@ -169,6 +169,14 @@ pub fn run(ctx: &'static Ctx) {
             }
         }
     });
+    // containers whose child count has no field of its own (everything but Package / PackageBuilder): 256, 257, 300
+    // and 1000 children are as legal as 255
+    lcs.par_iter().filter(|c| !c.name.starts_with("Package")).for_each(|c| {
+        for k in [256usize, 257, 300, 1000] {
+            check(ctx, &c.name, "root x k copies", &(c.build)(vec![f[1].clone(); k]));
+            n1.fetch_add(1, Ordering::Relaxed);
+        }
+    });
     let leaves = gen::leaves();
     for (n, t) in &leaves {
         check(ctx, n, "leaf variants", t);
